@@ -1,8 +1,327 @@
-"""placeholder: shared proof helper (filled in with the C11 check)"""
-from vlib import core
+"""C11 — tableau algebra and Clifford conversions are exact, signs included.
+Proofs: Tab.eval_hom (a tableau with Hermitian rows and canonical commutation relations is a phase-exact homomorphism, any n),
+generated prepend obligations (every Tableau::prepend_* realises the gate table action), table inverse ids, Collapse.A0inv.
+Tie H/O: every algebraic operation of the real Tableau<W> is recomputed from the printed operands with the XZ-form Pauli
+algebra of Pauli.v (vlib/pauli.py; the product rule is cross-checked against the extracted Coq product), and every conversion
+against the specification's gate action (extracted Act.run1/run2)."""
+import json
+
+from vlib import core, gatetable, gencirc, pauli, stimtext
 
 
 def prove_shared(prop_files):
     from vlib import setup
     setup.regenerate_all()
     return core.prove(prop_files)
+
+
+def tab_of(line):
+    t = line.split(' ')
+    return pauli.Tab.from_dump(t[1:]), t[2] == '1'
+
+
+def run(rep, tier):
+    quick = tier == 'quick'
+    svh = core.Svh('o1', timeout=120)
+    gates, hashes = gatetable.regenerate(svh)
+    names = stimtext.Names(gates)
+    rep.set_proof(prove_shared(['Properties_C11.v']))
+    rep.trusted += ['Coq 8.16.1 kernel', 'vlib translators (prepend routines)', 'extraction + runner/main.ml',
+                    'vlib/pauli.py (XZ-form product of Pauli.v, cross-checked against the extracted product on every run)', 'harness/c11.cc']
+    rep.assumptions += ['then/inverse/raised_to/scatter are tied by recomputation from printed operands, not modelled in Coq; unitary and '
+                        'state-vector conversions are checked by round trip only (float amplitudes)']
+    rng = rep.rng()
+
+    # cross-check of the driver's Pauli product against the extracted Coq product (Stab.ph / bxor)
+    pairs = []
+    for _ in range(200):
+        n = rng.choice([1, 2, 5, 9])
+        a = rng.choice('+-') + ''.join(rng.choice('_XYZ') for _ in range(n))
+        b = rng.choice('+-') + ''.join(rng.choice('_XYZ') for _ in range(n))
+        pairs.append((a, b))
+    mo = core.run_svm(''.join('mul %s %s\n' % p for p in pairs))
+    for (a, b), m in zip(pairs, mo):
+        k, bits = m.split(' ')
+        pr = pauli.P.from_str(a) * pauli.P.from_str(b)
+        # model: a*b = i^k * bits (hermitian, sign +)
+        want = pauli.P.from_str(bits)
+        want = pauli.P(want.k + int(k), want.x, want.z, want.n)
+        if (pr.k, pr.x, pr.z) != (want.k, want.x, want.z):
+            rep.broken_obligation('driver-pauli-product-vs-Coq', {'a': a, 'b': b, 'coq': m})
+
+    # ---------- A. algebra
+    sizes = [1, 2, 3, 5, 63, 64, 65, 127, 129] if not quick else [1, 2, 3, 5, 64, 65]
+    NA = 120 if quick else 5000
+    for _ in range(NA):
+        n = rng.choice(sizes)
+        m = rng.choice([1, 2, 3]) if n >= 3 else 1
+        W = rng.choice([64, 128, 256])
+        e = rng.choice([-3, -1, 0, 1, 2, 3, 5, 12, 1000001])
+        seed = rng.randrange(1 << 30)
+        try:
+            out = svh.request('tabalg', [W, seed, n, m, e])
+        except core.Crash as ex:
+            rep.violation('Tableau<%d> algebra' % W, 'crash', {'seed': seed, 'n': n, 'm': m}, str(ex) + ex.stderr[-800:])
+            continue
+        d = {}
+        for l in out:
+            key = l.split(' ')[0]
+            d[key] = l
+        cell = {'W': W, 'seed': seed, 'n': n, 'm': m, 'exponent': e}
+        rep.count(('c11-a', W, seed, n, m, e), nontrivial=(n % W != 0))
+        A, okA = tab_of(d['A'])
+        B, okB = tab_of(d['B'])
+        C, okC = tab_of(d['C'])
+        for nm in ('A', 'B', 'C', 'A.then(B)', 'A.inverse', 'A.raised_to', 'A+C', 'scatter_append', 'scatter_prepend'):
+            if nm in d:
+                T, ok = tab_of(d[nm])
+                if not ok or not T.is_valid():
+                    rep.violation('Tableau<%d>::%s' % (W, nm), 'wrong-result', cell, 'result is not a valid Clifford tableau (commutation relations)')
+        AB, _ = tab_of(d['A.then(B)'])
+        if not AB.same(A.then(B)):
+            rep.violation('Tableau<%d>::then' % W, 'wrong-result', cell, '(A.then(B))(P) must be B(A(P)) on every generator, signs included',
+                          A.then(B).rows()[:4], AB.rows()[:4])
+        Ainv, _ = tab_of(d['A.inverse'])
+        if not A.then(Ainv).same(pauli.ident_tab(n)) or not Ainv.then(A).same(pauli.ident_tab(n)):
+            rep.violation('Tableau<%d>::inverse' % W, 'wrong-result', cell, 'T.then(T^-1) is not the identity')
+        Ae, _ = tab_of(d['A.raised_to'])
+        # repeated squaring reference
+        base = A if e >= 0 else Ainv
+        k = abs(e)
+        ref = pauli.ident_tab(n)
+        sq = base
+        while k:
+            if k & 1:
+                ref = ref.then(sq)
+            sq = sq.then(sq)
+            k >>= 1
+        if not Ae.same(ref):
+            rep.violation('Tableau<%d>::raised_to' % W, 'wrong-result', cell, 'A^%d differs from repeated composition' % e, ref.rows()[:4], Ae.rows()[:4])
+        AC, _ = tab_of(d['A+C'])
+        exp_rows = []
+        ok_sum = AC.n == n + m
+        if ok_sum:
+            for i in range(n):
+                ok_sum = ok_sum and AC.xs[i].hermitian_str() == A.xs[i].hermitian_str() + '_' * m and AC.zs[i].hermitian_str() == A.zs[i].hermitian_str() + '_' * m
+            for i in range(m):
+                sx = C.xs[i].hermitian_str()
+                sz = C.zs[i].hermitian_str()
+                ok_sum = ok_sum and AC.xs[n + i].hermitian_str() == sx[0] + '_' * n + sx[1:] and AC.zs[n + i].hermitian_str() == sz[0] + '_' * n + sz[1:]
+        if not ok_sum:
+            rep.violation('Tableau<%d>::operator+' % W, 'wrong-result', cell, 'direct sum is not block diagonal with the operands')
+        Pp = pauli.P.from_str(d['P'].split(' ')[1])
+        Qp = pauli.P.from_str(d['Q'].split(' ')[1])
+        for nm, pp in (('A(P)', Pp), ('A(Q)', Qp)):
+            if d[nm].split(' ')[1] != A.apply(pp).hermitian_str():
+                rep.violation('Tableau<%d>::operator()' % W, 'wrong-result', cell, 'applying the tableau to a Pauli string differs from the product of '
+                              'generator images', A.apply(pp).hermitian_str(), d[nm].split(' ')[1])
+        if 'A(PQ)' in d:
+            pq = Pp * Qp
+            if d['PQ'].split(' ')[1] != pq.hermitian_str():
+                rep.violation('PauliString<%d>::operator*=' % W, 'wrong-result', cell, 'product differs', pq.hermitian_str(), d['PQ'].split(' ')[1])
+            lhs = A.apply(pq).hermitian_str()
+            rhs = (A.apply(Pp) * A.apply(Qp)).hermitian_str()
+            if lhs != rhs or d['A(PQ)'].split(' ')[1] != lhs:
+                rep.violation('Tableau<%d>::operator()' % W, 'wrong-result', cell, 'T(PQ) != T(P)T(Q)', rhs, d['A(PQ)'].split(' ')[1])
+        if 'TARGETS' in d:
+            ts = [int(x) for x in d['TARGETS'].split(' ')[1:]]
+            # embed C on the chosen qubits of an n-qubit identity
+            def embed(p):
+                x = z = 0
+                for j, t in enumerate(ts):
+                    x |= ((p.x >> j) & 1) << t
+                    z |= ((p.z >> j) & 1) << t
+                return pauli.P(p.k, x, z, n)
+            E = pauli.ident_tab(n)
+            for j, t in enumerate(ts):
+                E.xs[t] = embed(C.xs[j])
+                E.zs[t] = embed(C.zs[j])
+            SA, _ = tab_of(d['scatter_append'])
+            SP, _ = tab_of(d['scatter_prepend'])
+            if not SA.same(A.then(E)):
+                rep.violation('Tableau<%d>::inplace_scatter_append' % W, 'wrong-result', cell, 'appending an embedded operation differs from A.then(embedded)')
+            if not SP.same(E.then(A)):
+                rep.violation('Tableau<%d>::inplace_scatter_prepend' % W, 'wrong-result', cell, 'prepending an embedded operation differs from embedded.then(A)')
+    rep.sample({'operands': out[:2] if out else None})
+
+    conversions(rep, svh, rng, gates, names, 100 if quick else 4000)
+    stabilizer_lists(rep, svh, rng, 120 if quick else 5000)
+    svh.close()
+    rep.cov['rule'] = ('A: random tableaus (Tableau::random) of sizes %s, exponents incl. negative and 10^6, direct sums, scatter onto random '
+                       'qubits, W in {64,128,256}; B: unitary circuits over every gate -> tableau (vs the extracted gate action) -> circuit by '
+                       'every synthesis method -> tableau; inverse circuits; unitary/state-vector round trips for n <= 4; C: stabilizer '
+                       'lists incl. anticommuting / contradictory / redundant / underconstrained. Non-trivial = size not a multiple of W.' % sizes)
+
+
+def unitary_circuit(rng, gates, n, length):
+    u1, u2 = gencirc.gate_pools(gates)
+    lines = []
+    for _ in range(length):
+        if n >= 2 and rng.random() < 0.5:
+            g = rng.choice(u2)
+            ts = []
+            for _ in range(rng.choice([1, 1, 2])):
+                a, b = rng.sample(range(n), 2)
+                ts += [a, b]
+            lines.append('%s %s' % (rng.choice([g.name] + g.aliases), ' '.join(map(str, ts))))
+        else:
+            g = rng.choice(u1)
+            lines.append('%s %s' % (rng.choice([g.name] + g.aliases), ' '.join(str(rng.randrange(n)) for _ in range(rng.choice([1, 2])))))
+    if rng.random() < 0.3:
+        k = rng.randrange(len(lines))
+        lines = lines[:k] + ['REPEAT %d {' % rng.choice([2, 3])] + lines[k:k + 2] + ['}'] + lines[k + 2:]
+    return lines
+
+
+def spec_tableau(lines, n):
+    """rows of the tableau of a circuit by conjugating each generator through the extracted gate action"""
+    flat = []
+    stack = []
+    for l in lines:
+        if l.startswith('REPEAT'):
+            stack.append((int(l.split()[1]), []))
+        elif l == '}':
+            reps, body = stack.pop()
+            (stack[-1][1] if stack else flat).extend(body * reps)
+        else:
+            (stack[-1][1] if stack else flat).append(l)
+    canon = ' ; '.join(flat)
+    cmds = []
+    for i in range(n):
+        for c in 'XZ':
+            s = '+' + '_' * i + c + '_' * (n - 1 - i)
+            cmds.append('conjc %s | %s' % (s, canon))
+    return core.run_svm('\n'.join(cmds) + '\n')[:2 * n]
+
+
+def conversions(rep, svh, rng, gates, names, count):
+    for _ in range(count):
+        n = rng.choice([1, 2, 3, 4, 6, 9])
+        lines = unitary_circuit(rng, gates, n, rng.randint(2, 14))
+        lines.append('I %d' % (n - 1))          # fixes the qubit count
+        text = '\n'.join(lines)
+        W = rng.choice([64, 128, 256])
+        want_rows = spec_tableau(lines, n)
+        for method in ('elimination', 'graph_state', 'mpp_state', 'mpp_state_unsigned'):
+            try:
+                out = svh.request('tabconv', [W, method], text)
+            except core.Crash as e:
+                rep.violation('tableau_to_circuit(%s)' % method, 'crash', text, str(e) + e.stderr[-800:])
+                continue
+            if out and out[-1].startswith('ERR'):
+                rep.violation('circuit<->tableau (%s)' % method, 'reject-valid', text, out[-1][:300])
+                continue
+            d = {l.split(' ')[0]: l for l in out}
+            rep.count(('c11-conv', text, method), nontrivial=True)
+            T, ok = tab_of(d['T'])
+            if T.rows() != want_rows:
+                rep.violation('circuit_to_tableau<%d>' % W, 'wrong-result', text, 'tableau rows differ from conjugating the generators through the '
+                              'documented gate actions', want_rows[:4], T.rows()[:4])
+                break
+            Tinv, _ = tab_of(d['TINV'])
+            if not T.then(Tinv).same(pauli.ident_tab(n)):
+                rep.violation('circuit_to_tableau<%d>(inverse=true)' % W, 'wrong-result', text, 'not the inverse tableau')
+            Tci, _ = tab_of(d['TCINV'])
+            if not Tci.same(Tinv):
+                rep.violation('Circuit::inverse', 'wrong-result', text, 'the inverse circuit does not implement the inverse Clifford')
+            if method == 'elimination':
+                T2, _ = tab_of(d['T2'])
+                if not T2.same(T):
+                    rep.violation('tableau_to_circuit(elimination)', 'wrong-result', text, 'synthesised circuit has a different tableau',
+                                  T.rows()[:4], T2.rows()[:4])
+            else:
+                # state-preparation methods: the synthesised circuit must prepare the same stabilizer state: T(Z_k) are stabilizers
+                circ = d['CIRCUIT'][8:].replace(';', '\n')
+                stabs = [T.zs[k].hermitian_str() for k in range(n)]
+                if method == 'mpp_state_unsigned':
+                    stabs = ['+' + s[1:] for s in stabs]
+                payload = circ + '\n' + '\n'.join('@PROBE ' + ' '.join('%d:%s' % (q, c) for q, c in enumerate(s[1:]) if c != '_') + (' -' if s[0] == '-' else '')
+                                                  for s in stabs if any(c != '_' for c in s[1:]))
+                o2 = svh.request('tsim', [W, 1, 0, n], payload)
+                probes = [l.split(' ')[1] for l in o2 if l.startswith('P ')]
+                if o2 and o2[-1].startswith('ERR'):
+                    rep.violation('tableau_to_circuit(%s)' % method, 'wrong-result', text, 'synthesised circuit cannot be simulated: ' + o2[-1][:200])
+                elif method != 'mpp_state_unsigned' and any(p != '1' for p in probes):
+                    rep.violation('tableau_to_circuit(%s)' % method, 'wrong-result', text,
+                                  'the synthesised circuit does not prepare the stabilizer state of the tableau (expectations %s)' % probes)
+                elif method == 'mpp_state_unsigned' and any(p == '0' for p in probes):
+                    rep.violation('tableau_to_circuit(%s)' % method, 'wrong-result', text, 'a stabilizer of the tableau is not determined after the synthesised circuit')
+            for k in ('TU_BE', 'TU_LE'):
+                if k in d:
+                    T3, _ = tab_of(d[k])
+                    if not T3.same(T):
+                        rep.violation('tableau_to_unitary / unitary_to_tableau', 'wrong-result', text, 'round trip through the unitary matrix (%s) changes the tableau' % k)
+            if 'STATEVEC' in d and d['STATEVEC'].split(' ')[1] != '1':
+                rep.violation('stabilizer_state_vector_to_circuit', 'wrong-result', text, 'round trip through the state vector changes the state')
+
+
+def stabilizer_lists(rep, svh, rng, count):
+    for _ in range(count):
+        n = rng.choice([1, 2, 3, 4, 6, 65])
+        W = rng.choice([64, 128, 256])
+        seed = rng.randrange(1 << 30)
+        out = svh.request('tabalg', [W, seed, n, 1, 1])
+        A, _ = tab_of([l for l in out if l.startswith('A ')][0])
+        stabs = [A.zs[k] for k in range(n)]
+        # random invertible mixing of the generators keeps the group
+        mixed = []
+        for k in range(n):
+            p = stabs[k]
+            for j in range(n):
+                if j != k and rng.random() < 0.3:
+                    p = p * stabs[j]
+            mixed.append(p)
+        kind = rng.choice(['valid', 'valid', 'redundant', 'under', 'anticommuting', 'contradictory'])
+        lst = [p.hermitian_str() for p in stabs]      # independent by construction
+        allow_red = rng.random() < 0.5
+        allow_under = rng.random() < 0.5
+        expect_err = False
+        if kind == 'redundant' and n >= 2:
+            lst.append((stabs[0] * stabs[1]).hermitian_str())
+            expect_err = not allow_red
+        elif kind == 'under' and n >= 2:
+            lst = lst[:-1]
+            expect_err = not allow_under
+        elif kind == 'anticommuting':
+            lst[0] = A.xs[0].hermitian_str()
+            lst.append(A.zs[0].hermitian_str())
+            expect_err = True
+        elif kind == 'contradictory':
+            s = lst[0]
+            lst.append(('-' if s[0] == '+' else '+') + s[1:])
+            expect_err = True
+        try:
+            o = svh.request('stab2tab', [W, int(allow_red), int(allow_under), 0], '\n'.join(lst))
+        except core.Crash as e:
+            rep.violation('stabilizers_to_tableau<%d>' % W, 'crash', lst, str(e) + e.stderr[-800:])
+            continue
+        rep.count(('c11-stab', tuple(lst), allow_red, allow_under), nontrivial=kind != 'valid')
+        err = o[-1].startswith('ERR')
+        cell = {'stabilizers': lst if n < 10 else lst[:2] + ['...'], 'allow_redundant': allow_red, 'allow_underconstrained': allow_under, 'kind': kind}
+        if expect_err and not err:
+            rep.violation('stabilizers_to_tableau<%d>' % W, 'accept-invalid', cell, 'invalid stabilizer list (%s) accepted' % kind)
+        elif not expect_err and err:
+            rep.violation('stabilizers_to_tableau<%d>' % W, 'reject-valid', cell, 'valid stabilizer list rejected: ' + o[-1][:200])
+        elif not err:
+            T, ok = tab_of(o[0])
+            if not ok or not T.is_valid():
+                rep.violation('stabilizers_to_tableau<%d>' % W, 'wrong-result', cell, 'result is not a valid tableau')
+                continue
+            # every given stabilizer must be +1 on the state T|0>: it must be a product of T(Z_k) with sign +
+            Tinv_rows = None
+            for s in lst:
+                p = pauli.P.from_str(s)
+                # express p in the basis: p commutes with all T(Z_k) and equals a product of them
+                acc = pauli.identity(T.n)
+                for k in range(T.n):
+                    if not p.commutes(T.xs[k]):
+                        acc = acc * T.zs[k]
+                if (acc.x, acc.z) != (p.x, p.z) or acc.hermitian_str() != pauli.P(p.k, p.x, p.z, T.n).hermitian_str():
+                    rep.violation('stabilizers_to_tableau<%d>' % W, 'wrong-result', cell, 'stabilizer %s is not a +1 stabilizer of the returned tableau\'s state' % s)
+                    break
+
+
+def replay(path):
+    r = json.load(open(path))
+    print(json.dumps(r, indent=1))
+    return 0
